@@ -672,6 +672,10 @@ func fn0Recv(f *ssa.Function) bool {
 // callerProps: a precondition obligation at a call site is claimed under the caller's
 // function-level props (a caller that tags only individual clauses does not claim them).
 func (vc *VC) callerProps(c *Clause) []string {
+	if c.Explicit && c.Kind == "requires" {
+		// `requires[Cxx]`: the precondition supports only Cxx; call sites owe it only under Cxx
+		return c.Props
+	}
 	if fc := vc.eng.contractOf(vc.fn); fc != nil {
 		return fc.Props
 	}
